@@ -112,22 +112,29 @@ void igris_verif_w_sv(igris::archive::binary_serializer_basic &w,
     w.dump(sv);
 }
 
-// concrete readers / writers (cursor movement)
-void igris_verif_bufreader(igris::archive::binary_buffer_reader &r, char *dat,
-                           uint16_t sz, int n)
+// concrete readers / writers (cursor movement): constructing the objects emits
+// their vtables and virtual members
+void igris_verif_bufreader(const char *src, size_t n, char *dat, uint16_t sz,
+                           int k)
 {
+    igris::archive::binary_buffer_reader r(src, n);
     r.load_data(dat, sz);
-    r.skip(n);
+    r.skip(k);
     (void)r.pointer();
     (void)r.end();
 }
-void igris_verif_bufwriter(igris::archive::binary_buffer_writer &w,
-                           const char *dat, uint16_t sz)
+void igris_verif_bufreader_buf(igris::buffer b)
 {
+    igris::archive::binary_buffer_reader r(b);
+    (void)r.pointer();
+}
+void igris_verif_bufwriter(char *dst, size_t n, const char *dat, uint16_t sz)
+{
+    igris::archive::binary_buffer_writer w(dst, n);
     w.dump_data(dat, sz);
 }
-void igris_verif_strwriter(igris::archive::binary_string_writer &w,
-                           const char *dat, uint16_t sz)
+void igris_verif_strwriter(std::string &out, const char *dat, uint16_t sz)
 {
+    igris::archive::binary_string_writer w(out);
     w.dump_data(dat, sz);
 }
